@@ -194,7 +194,7 @@ def marker_sessions(rep: Report, pids: tuple, n_random: int, n_law: int, selfche
             rep.violation(classify(p, clause, s, l),
                           f"session {sid} event {l}: {ev['op']} a={_txt(s, ev['a'])!r} b={_txt(s, ev['b'])!r} names={ev['names']} -> {ev['str']!r} fails {clause}",
                           {"kind": "marker-session", "seed": s["seed"], "law": any(e["op"] == "law" for e in s["events"]),
-                           "session_kind": ("interchange" if any(e.get("law", "").startswith("interchange") for e in s["events"]) else "law" if any(e["op"] == "law" for e in s["events"]) else "random"), "event": l, "clause": clause,
+                           "session_kind": s.get("session_kind") or ("interchange" if any(e.get("law", "").startswith("interchange") for e in s["events"]) else "law" if any(e["op"] == "law" for e in s["events"]) else "random"), "event": l, "clause": clause,
                            "script": ops, "result": ev["str"], "grid_complete": s["grid_complete"]})
     nev = sum(len(s["events"]) for s in sessions)
     rep.add("states", states)
@@ -327,6 +327,17 @@ def _nf_chunk(states):
         if reason:
             opname = op.split("_")[0]
             fails.append(("C15", f"C15:{opname}:normal_form:{reason}", f"{op} on {ctx['x']!r}, {ctx['y']!r} -> {ctx['result']!r} is not in normal form", ctx))
+        # C07: the result renders to text that parses back to an equivalent marker
+        try:
+            text = str(res)
+            if "<empty>" in text and not res.is_empty():
+                fails.append(("C07", f"C07:nf-b1:{op.split('_')[0]}:empty-token-inside", f"{op} on {ctx['x']!r}, {ctx['y']!r} renders as {text!r}", ctx))
+            else:
+                back = parse_marker(text)
+                if drive_marker.table_of(back, NF_GRID) != got:
+                    fails.append(("C07", f"C07:nf-b1:{op.split('_')[0]}:reparse-table", f"{text!r} re-parses to a different marker", ctx))
+        except Exception as e:  # noqa: BLE001
+            fails.append(("C07", f"C07:nf-b1:{op.split('_')[0]}:raises-{type(e).__name__}", f"{op} on {ctx['x']!r}, {ctx['y']!r}: {e!r}", ctx))
     return n, fails
 
 
@@ -635,7 +646,7 @@ def run(pid: str, tier: str, replay: str | None = None) -> int:
     thorough = tier == "thorough"
     if replay and json.load(open(replay))["vector"].get("kind") == "marker-session":
         return _replay(rep, replay)
-    if pid in ("C02", "C15", "C12"):
+    if pid in ("C02", "C15", "C12", "C07"):
         normal_form_mc(rep, pid, thorough)
     if pid == "C07":
         atom_roundtrip(rep)
@@ -658,7 +669,8 @@ def _replay(rep: Report, path: str) -> int:
     doc = json.load(open(path))
     vec = doc["vector"]
     kind = vec.get("session_kind") or ("law" if vec.get("law") else "random")
-    s = {"law": drive_marker.law_session, "interchange": drive_marker.interchange_session, "random": drive_marker.random_session}[kind](1, vec["seed"])
+    s = {"law": drive_marker.law_session, "interchange": drive_marker.interchange_session, "random": drive_marker.random_session,
+         "blowup": drive_marker.blowup_session}[kind](1, vec["seed"])
     s["sid"] = 1
     tmp = tempfile.mkdtemp(prefix="verif_ms_")
     try:
